@@ -2,7 +2,7 @@
    n is the configuration's max_value_power: 64 for metrique-aggregation, 32 for the metrics.rs bridge. *)
 From Coq Require Import List NArith ZArith Permutation Sorted Reals.
 From Flocq Require Import Core.Core IEEE754.Binary.
-From MV Require Import C11.Model C11.Float C11.BucketProofs C11.HistProofs C11.SortProofs C11.ReaggProofs C11.FloatProofs.
+From MV Require Import C11.Model C11.Float C11.BucketProofs C11.HistProofs C11.SortProofs C11.ReaggProofs C11.FloatProofs C11.FloatDrainProofs.
 Import ListNotations.
 Local Open Scope N_scope.
 
@@ -206,6 +206,18 @@ Theorem c11_reagg_exact : forall h, length h = N.to_nat (total_buckets 64) -> (f
   Forall mean_scales_back (drain_mids 64 h) -> exp_close (exp_drain h) = exp_drain h.
 Proof. exact reaggregate_exact_obs. Qed.
 Print Assumptions c11_reagg_exact.
+
+(* The exactness condition follows from a numeric one: with fewer than 2^53 occurrences and
+   midpoint * count < 2^53 every float operation between the bucket and its re-recording is exact (Flocq). *)
+Theorem c11_scales_back : forall mid c, 0 < c -> c < 2 ^ 53 -> mid * c < 2 ^ 53 -> mean_scales_back (mid, c).
+Proof. exact scales_back_exact. Qed.
+Print Assumptions c11_scales_back.
+
+Theorem c11_reagg_exact_numeric : forall h, length h = N.to_nat (total_buckets 64) -> (forall i, nth i h 0 < 2 ^ 64) ->
+  (forall m c, In (m, c) (drain_mids 64 h) -> c < 2 ^ 53 /\ m * c < 2 ^ 53) ->
+  exp_close (exp_drain h) = exp_drain h.
+Proof. exact reaggregate_exact_numeric. Qed.
+Print Assumptions c11_reagg_exact_numeric.
 
 (* The condition is needed: 2.1e15 occurrences in the bucket [18/1024, 19/1024) come back as 17/1024. *)
 Theorem c11_reagg_inexact_refuted :
